@@ -165,6 +165,7 @@ def explore(run):
                 if run.full():
                     return
         extobj_probe(run, sc)
+        own_children_probe(run, sc)
         if run.full():
             return
         datetime_probe(run, sc)
@@ -183,6 +184,39 @@ def big(run, sc):
     files = D.serialise(rng, g)
     run.case({"big": len(g["nodes"])}, tag="big")
     PC.check_set(run, sc, g, files, None, ["nodes"], "big", model=False)
+
+
+def own_children_probe(run, sc):
+    """DisplayName and Description are the node element's OWN children: a data type without them whose Definition fields carry a
+    DisplayName / Description (and a sibling that has both) reports '' — not the first field's text"""
+    import os
+    from opcua_tools.nodeset_parser import parse_xml_files
+    nodes = ('<UADataType NodeId="ns=1;i=1" BrowseName="1:Colour"><References><Reference ReferenceType="i=45" IsForward="false">i=29</Reference></References>'
+             '<Definition Name="1:Colour"><Field Name="Red" Value="0"><DisplayName>Rouge</DisplayName><Description>la couleur</Description></Field>'
+             '<Field Name="Green" Value="1"><DisplayName>Vert</DisplayName></Field></Definition></UADataType>'
+             '<UADataType NodeId="ns=1;i=2" BrowseName="1:Shape"><DisplayName>Shape</DisplayName><Description>own text</Description><References/>'
+             '<Definition Name="1:Shape"><Field Name="Round" Value="0"><DisplayName>Rond</DisplayName><Description>autre</Description></Field></Definition></UADataType>'
+             '<UADataType NodeId="ns=1;i=3" BrowseName="1:Size"><DisplayName>Size</DisplayName><References/>'
+             '<Definition Name="1:Size"><Field Name="Big" Value="0"><Description>grand</Description></Field></Definition></UADataType>')
+    text = DOC % nodes
+    d = sc.sub("ownkids")
+    path = os.path.join(d, "k.xml")
+    open(path, "w", encoding="utf-8").write(text)
+    case = {"files": {"k.xml": text}}
+    run.case({"own_children_probe": 3}, tag="own-children")
+    run.compared += 1
+    try:
+        out = parse_xml_files([path])["nodes"]
+    except Exception as e:  # noqa: BLE001
+        run.violation(case, {"what": "parse raised on data types with field display names: %s: %s" % (type(e).__name__, str(e)[:200])})
+        return
+    import pandas as pd
+    txt = lambda v: "" if v is None or (not isinstance(v, str) and pd.isna(v)) else v   # noqa: E731
+    got = {int(n.value): (txt(dn), txt(ds)) for n, dn, ds in zip(out["NodeId"], out["DisplayName"], out["Description"])}
+    want = {1: ("", ""), 2: ("Shape", "own text"), 3: ("Size", "")}
+    if got != want:
+        run.violation(case, {"what": "DisplayName / Description of a node are not those of its own child elements", "impl": repr(got), "expected": repr(want),
+                             "call": "parse_xml_files([k.xml])"})
 
 
 def extobj_probe(run, sc):
